@@ -548,7 +548,7 @@ impl Property for C02 {
          iteration budgets from {1..12,15,20,30} x the four optimisation-switch combinations (quick: 2 budgets drawn per case + budget 10, thorough: all 15). Oracle = \
          certificate check on whatever state the assembler claims: instruction sizes are read from output.spans, the layout and every label are recomputed from them, \
          every instruction's syntactic survivors are evaluated with the FINAL symbol values at its ACTUAL address, failed constraints discarded, and the unique smallest \
-         encoding must have the claimed size and equal the emitted bits; bits, length and symbols must equal the recomputation; a #res / #align / #addr whose amount depends on the layout itself (a constant defined from labels further down) takes the position the assembler gives the next item and must evaluate to exactly that amount with the final symbols (directed templates: a lagging constant; a statically known prefix followed by such a directive, a label and a short/long instruction naming it). An error outcome is accepted. \
+         encoding must have the claimed size and equal the emitted bits; bits, length and symbols must equal the recomputation; a #res / #align / #addr whose amount depends on the layout itself (a constant defined from labels further down) takes the position the assembler gives the next item and must evaluate to exactly that amount with the final symbols (directed templates: a lagging constant; a statically known prefix followed by such a directive, a label and a short/long instruction naming it; a constant whose WIDTH depends on a label behind the instruction that reads it through forward constants). An error outcome is accepted. \
          Non-trivial = success with an instruction whose emitted size differs from the largest candidate size, or >= 3 passes; distinct by hash of source."
             .to_string()
     }
